@@ -700,10 +700,12 @@ def replay_len(d):
 
 # ---------------------------------------------------------------------------------------------- formulas over subquery conditions
 # (coq/Model/C01Form.v)  query = (subs, filt, proj, params): subs[k] describes column 40 + k:
-#     ('exists', c)   ('in', v, attr, form, c)   ('count', c)
-# filt is a c01_lib expression over g's attributes, the leaves ('sub', 40 + k) (exists / in) and the attributes 'group.q<40 + k>' (count)
+#     ('exists', c)   ('in', v, attr, form, c)   ('count', c)   ('agg', f, item, c)  with f in sum / min / max / count
+# filt / proj are c01_lib expressions over g's attributes, the leaves ('sub', 40 + k) (exists / in) and ('col', 40 + k, type, nullable) (scalar subqueries)
 
-FORM_HEADER = COLL_HEADER.replace('PonyV.Model.C01Coll.', 'PonyV.Model.C01Coll PonyV.Model.C01Form.')
+AGG_FN = {'sum': 'FSum', 'min': 'FMin', 'max': 'FMax', 'count': 'FCount'}
+AGG_AST = {'SUM': 'FSum', 'MIN': 'FMin', 'MAX': 'FMax', 'COUNT': 'FCount'}
+FORM_HEADER = COLL_HEADER.replace('PonyV.Model.C01Coll.', 'PonyV.Model.C01Coll PonyV.Model.C01Aggr PonyV.Model.C01Form.')
 SUB_BASE = 40
 
 
@@ -715,6 +717,7 @@ def sub_src(x):
         coll = 'g.members.%s' % a if form == 'attr' else '(m.%s for m in g.members%s)' % (a, '' if c is None else ' if ' + esrc(c))
         return '(%s in %s)' % (esrc(v), coll)
     if k == 'count': return count_src(x[1])
+    if k == 'agg': return '%s(%s for m in g.members%s)' % (x[1], esrc(x[2]), '' if x[3] is None else ' if ' + esrc(x[3]))
     raise ValueError(k)
 
 
@@ -726,13 +729,14 @@ def fsrc(e, subs):
 
 
 def form_qsrc(subs, filt, proj):
-    return 'select(%s for g in G if %s)' % ('(g.id, %s)' % esrc(proj) if proj is not None else 'g.id', fsrc(filt, subs))
+    return 'select(%s for g in G if %s)' % ('(g.id, %s)' % fsrc(proj, subs) if proj is not None else 'g.id', fsrc(filt, subs))
 
 
 def sub_coq(x):
     k = x[0]
     if k == 'exists': return '(SQExists %s)' % copt(x[1])
     if k == 'count': return '(SQCount %s)' % copt(x[1])
+    if k == 'agg': return '(SQAgg %s %s %s)' % (AGG_FN[x[1]], L.coq(x[2]), copt(x[3]))
     v, a, form, c = x[1:]
     i, t, n = L.ATTRS[a]
     return '(SQIn %s (mkattr %d %s %s) %s)' % (L.coq(v), i, L._VTY[t], cb(n), 'SAttr' if form == 'attr' else '(SGen %s)' % copt(c))
@@ -742,13 +746,14 @@ def subs_json(subs):
     out = []
     for x in subs:
         if x[0] in ('exists', 'count'): out.append([x[0], None if x[1] is None else L.to_json(x[1])])
+        elif x[0] == 'agg': out.append(['agg', x[1], L.to_json(x[2]), None if x[3] is None else L.to_json(x[3])])
         else: out.append(['in', L.to_json(x[1]), x[2], x[3], None if x[4] is None else L.to_json(x[4])])
     return out
 
 
 def subs_from_json(js):
     f = lambda c: None if c is None else L.from_json(c)
-    return [(x[0], f(x[1])) if x[0] in ('exists', 'count') else ('in', L.from_json(x[1]), x[2], x[3], f(x[4])) for x in js]
+    return [(x[0], f(x[1])) if x[0] in ('exists', 'count') else (('agg', x[1], L.from_json(x[2]), f(x[3])) if x[0] == 'agg' else ('in', L.from_json(x[1]), x[2], x[3], f(x[4]))) for x in js]
 
 
 def _form_hook(alias, name):
@@ -774,6 +779,12 @@ def _lift_subs(x, xs):
             col = ['COLUMN', '#', 'q%d' % (SUB_BASE + len(xs))]
             xs.append('(XSCount %s)' % _sub_term(x[2], x[3]))
             return col
+        if (t == 'SELECT' and len(x) == 4 and len(x[1]) == 2 and x[1][0] == 'AGGREGATES' and x[1][1][0] in AGG_AST and len(x[1][1]) == 3
+                and x[1][1][1] in (True, False)):
+            col = ['COLUMN', '#', 'q%d' % (SUB_BASE + len(xs))]
+            a = x[1][1]
+            xs.append('(XSAgg %s %s %s %s)' % (AGG_AST[a[0]], cb(a[1]), L.qx(a[2]), _sub_term(x[2], x[3])))
+            return col
         return [_lift_subs(y, xs) for y in x]
     return x
 
@@ -793,7 +804,7 @@ def form_translate(provider, subs, filt, proj, params):
         try:
             xs = []
             conds = '[%s]' % '; '.join(L.qx(_lift_subs(c, xs)) for c in t.conditions)
-            col = L.qx(t.expr_columns[1]) if proj is not None else None
+            col = L.qx(_lift_subs(t.expr_columns[1], xs)) if proj is not None else None
         finally:
             L.COLUMN_HOOK[0] = None
         return '[%s]' % '; '.join(xs), conds, col, q.get_sql(), L.strip_ast([fa, t.conditions, t.expr_columns])
@@ -818,6 +829,21 @@ def sub_value(graph, g, x, params):
     k = x[0]
     if k == 'exists': return bool(selected(graph, g, x[1], params))
     if k == 'count': return len(selected(graph, g, x[1], params))
+    if k == 'agg':
+        f, item, c = x[1:]
+        vals = []
+        for m in selected(graph, g, c, params):
+            row = m_row(g, m)
+            try:
+                if 'zero-division' in L.hazards(item, row, params): raise Skip()
+                v = L.ref(item, row, params, False)
+            except L.RefError:
+                raise Skip()
+            if v is not None: vals.append(v)
+        if f == 'sum': return sum(int(v) for v in vals)
+        if f == 'count': return len({(type(v).__name__, v) for v in vals})
+        if not vals: return None
+        return min(vals) if f == 'min' else max(vals)
     v, a, form, c = x[1:]
     try: val = L.ref(v, g_row(g), params, False)
     except L.RefError: raise Skip()
@@ -830,7 +856,7 @@ def form_row(graph, g, subs, params):
     row = g_row(g)
     for k, x in enumerate(subs):
         v = sub_value(graph, g, x, params)
-        row['group.%s%d' % ('q' if x[0] == 'count' else 's', SUB_BASE + k)] = v
+        row['group.%s%d' % ('q' if x[0] in ('count', 'agg') else 's', SUB_BASE + k)] = v
     return row
 
 
@@ -866,7 +892,8 @@ def form_failure(subs, filt, proj, params, graph, g, mode, got, want):
         if differs or not k.startswith('unlisted'): key = k
         if key is None:
             for x in subs:
-                for c in [y for y in (x[1] if x[0] != 'in' else x[4], x[1] if x[0] == 'in' else None) if y is not None]:
+                pieces = [x[4], x[1]] if x[0] == 'in' else ([x[3], x[2]] if x[0] == 'agg' else [x[1]])
+                for c in [y for y in pieces if y is not None]:
                     rows = [g_row(g)] if (x[0] == 'in' and c is x[1]) else [m_row(g, m) for m in members(graph, g)]
                     for r in rows:
                         k = H.classify(c, r, params, 'filter')
@@ -875,6 +902,7 @@ def form_failure(subs, filt, proj, params, graph, g, mode, got, want):
                         if differs or not k.startswith('unlisted'): key = key or k
     except Skip:
         pass
+    key = known_agg_key(subs) or key
     if key is None: key = 'unlisted:collection:formula'
     what = '%s with %s on group %s with members %s: Pony gives %r, the comprehension gives %r' % (
         form_qsrc(subs, filt, proj), {('x%d' % i): v for i, v in sorted(params.items())}, g, [m['id'] for m in members(graph, g)], got, want)
@@ -889,7 +917,7 @@ def gen_formula(rng, g_in, g_out, depth, subs):
         subs.append(x); return SUB_BASE + len(subs) - 1
     r = rng.random()
     if depth <= 1 or r < 0.3 or len(subs) >= 5:
-        kind = rng.choice(('exists', 'exists', 'in', 'in', 'count', 'plain')) if len(subs) < 6 else 'plain'
+        kind = rng.choice(('exists', 'exists', 'in', 'in', 'count', 'agg', 'agg', 'plain')) if len(subs) < 6 else 'plain'
         if kind == 'plain': return _gen_outer(g_out, rng, lambda: g_out.cond(2))
         if kind == 'exists': return ('sub', new_col(('exists', inner() if rng.random() < 0.7 else None)))
         if kind == 'in':
@@ -897,15 +925,43 @@ def gen_formula(rng, g_in, g_out, depth, subs):
             v = _gen_outer(g_out, rng, lambda: g_out.value(t, rng.choice((1, 1, 2)), rng.random() < 0.7))
             form = 'attr' if rng.random() < 0.25 else 'gen'
             return ('sub', new_col(('in', v, a, form, inner() if form == 'gen' and rng.random() < 0.4 else None)))
-        col = None
-        other = _gen_outer(g_out, rng, lambda: g_out.value('int', rng.choice((1, 1, 2)), False))      # generated before the count so that the numbering stays in source order
-        col = new_col(('count', inner() if rng.random() < 0.6 else None))
-        return ('cmp', rng.choice(L.CMPS[:6]), ('attr', 'group.q%d' % col), other)
+        leaf, t = gen_scalar_sub(rng, g_in, subs, kind)
+        other = _gen_outer(g_out, rng, lambda: g_out.value(t, rng.choice((1, 1, 2)), False))
+        return ('cmp', rng.choice(L.CMPS[:6]), leaf, other)
     f = rng.choice(('not', 'and', 'or', 'or', 'not'))
     if f == 'not': return ('not', gen_formula(rng, g_in, g_out, depth - 1, subs))
     a = gen_formula(rng, g_in, g_out, depth - 1, subs)
     b = gen_formula(rng, g_in, g_out, depth - 1, subs)
     return (f, a, b)
+
+
+P_ATTRS = ('a', 'b', 'r', 's', 'u', 'f', 'g')
+SEARCH_MODE = [False]      # the search also produces the two recorded defect shapes (outer-only item, sum of a boolean item)
+
+
+def known_agg_key(subs):
+    for x in subs:
+        if x[0] == 'agg' and not (L.attrs_of(x[2]) & set(P_ATTRS)): return 'collection-aggregate-of-outer-only-item'
+    for x in subs:
+        if x[0] == 'agg' and x[1] == 'sum' and L.ty_of(x[2]) == 'bool': return 'sum-of-booleans-over-collection-is-returned-as-bool'
+    return None
+
+
+def gen_scalar_sub(rng, g_in, subs, kind=None):
+    """A new scalar subquery -> (its 'col' leaf, its type)."""
+    def inner(): return g_in.filter_expr(rng.choice((2, 2, 3)))
+    kind = kind or rng.choice(('count', 'agg', 'agg'))
+    if kind == 'count':
+        subs.append(('count', inner() if rng.random() < 0.6 else None))
+        return ('col', SUB_BASE + len(subs) - 1, 'int', False), 'int'
+    f = rng.choice(('sum', 'sum', 'min', 'max', 'count'))
+    t = rng.choice(('int', 'int', 'int', 'bool') if (f == 'sum' and SEARCH_MODE[0]) else ('int', 'str') if f != 'sum' else ('int',))
+    for _ in range(50):
+        item = g_in.value(t, rng.choice((1, 1, 2)), True)
+        if (L.attrs_of(item) & set(P_ATTRS)) or (SEARCH_MODE[0] and rng.random() < 0.1): break
+    subs.append(('agg', f, item, inner() if rng.random() < 0.4 else None))
+    rt = 'int' if f in ('sum', 'count') else t
+    return ('col', SUB_BASE + len(subs) - 1, rt, f in ('min', 'max')), rt
 
 
 S40 = ('sub', 40); S41 = ('sub', 41)
@@ -915,13 +971,19 @@ FORM_HANDMADE = [
     ([('in', ('attr', 'group.level'), 'a', 'gen', None)], ('not', S40), None),
     ([('in', ('attr', 'group.level'), 'a', 'gen', None), ('exists', None)], ('not', ('or', S40, ('not', S41))), ('attr', 'group.number')),
     ([('in', ('attr', 'group.title'), 's', 'attr', None)], ('or', ('not', S40), ('cmp', '>', ('attr', 'group.number'), ('int', 1))), None),
-    ([('count', None), ('exists', ('attr', 'g'))], ('and', ('or', ('cmp', '>', ('attr', 'group.q40'), ('int', 2)), S41), ('cmp', 'is not', ('attr', 'group.level'), ('none',))), None),
+    ([('count', None), ('exists', ('attr', 'g'))], ('and', ('or', ('cmp', '>', ('col', 40, 'int', False), ('int', 2)), S41), ('cmp', 'is not', ('attr', 'group.level'), ('none',))), None),
+    ([('agg', 'sum', ('attr', 'a'), None)], ('cmp', '>', ('col', 40, 'int', False), ('attr', 'group.level')), ('attr', 'group.number')),
+    ([('agg', 'min', ('attr', 'a'), None)], ('cmp', '==', ('col', 40, 'int', True), ('int', 1)), None),
+    ([('agg', 'max', ('attr', 's'), ('attr', 'g'))], ('not', ('col', 40, 'str', True)), None),
+    ([('exists', None), ('agg', 'sum', ('arith', '+', ('attr', 'a'), ('attr', 'group.level')), None)], S40, ('arith', '+', ('col', 41, 'int', False), ('int', 1))),
+    ([('exists', None), ('agg', 'max', ('attr', 'b'), None), ('agg', 'count', ('attr', 's'), None)], ('or', S40, ('cmp', 'is', ('attr', 'group.level'), ('none',))), ('coalesce', (('col', 41, 'int', True), ('col', 42, 'int', False)))),
     ([('in', ('attr', 'group.number'), 'r', 'gen', ('attr', 'g')), ('in', ('attr', 'group.level'), 'b', 'gen', None)], ('not', ('and', S40, S41)), None),
-    ([('count', ('cmp', '>', ('attr', 'a'), ('int', 0))), ('count', None)], ('cmp', '<', ('attr', 'group.q40'), ('attr', 'group.q41')), None),
+    ([('count', ('cmp', '>', ('attr', 'a'), ('int', 0))), ('count', None)], ('cmp', '<', ('col', 40, 'int', False), ('col', 41, 'int', False)), None),
 ]
 
 
-def gen_form_queries(ctx, n):
+def gen_form_queries(ctx, n, search=False):
+    SEARCH_MODE[0] = search
     rng = ctx.rng
     g_in = L.Gen(rng, pools=INNER_POOLS); g_out = L.Gen(rng, pools=OUTER_POOLS)
     out = [(s, f, p, {}) for s, f, p in FORM_HANDMADE]
@@ -931,7 +993,12 @@ def gen_form_queries(ctx, n):
         try: filt = gen_formula(rng, g_in, g_out, rng.choice((2, 3, 3)), subs)
         except RuntimeError: continue
         if not subs: continue
-        proj = _gen_outer(g_out, rng, lambda: g_out.value(rng.choice(('int', 'str')), rng.choice((1, 2)), True)) if rng.random() < 0.25 else None
+        proj = None
+        r = rng.random()
+        if r < 0.2: proj = _gen_outer(g_out, rng, lambda: g_out.value(rng.choice(('int', 'str')), rng.choice((1, 2)), True))
+        elif r < 0.45 and len(subs) < 6:
+            leaf, t = gen_scalar_sub(rng, g_in, subs)
+            proj = leaf if rng.random() < 0.6 or t != 'int' else ('arith', rng.choice(('+', '-', '*')), leaf, _gen_outer(g_out, rng, lambda: g_out.value('int', 1, False)))
         out.append((subs, filt, proj, dict(g_in.params)))
     return out
 
@@ -973,6 +1040,15 @@ def form_cases(ctx, queries, real):
     return exprs, meta, dis, nontriv, dist
 
 
+def form_raises(subs, filt, proj, params, graph, ex):
+    key = known_agg_key(subs) if known_agg_key(subs) == 'collection-aggregate-of-outer-only-item' else None
+    key = key or 'unlisted:collection:formula-raises:%s' % type(ex).__name__
+    what = '%s with %s: the database rejects the statement (%s: %s); Python evaluates the comprehension' % (
+        form_qsrc(subs, filt, proj), {('x%d' % i): v for i, v in sorted(params.items())}, type(ex).__name__, str(ex)[:80])
+    return Failure(key, what, {'form': {'subs': subs_json(subs), 'filt': L.to_json(filt), 'proj': L.to_json(proj) if proj is not None else None,
+                                        'params': {str(i): v for i, v in params.items()}, 'graph': minimal_graph(graph, graph['G'][0])}})
+
+
 def form_search(ctx, queries, real, max_per_key=1):
     failures, seen, evals, nontriv = [], {}, 0, set()
     dist = {'queries': 0, 'pony_raises': {}, 'failing_groups_by_key': seen}
@@ -981,7 +1057,12 @@ def form_search(ctx, queries, real, max_per_key=1):
         try:
             bad = check_form_query(real, subs, filt, proj, params)
         except Exception as ex:
-            n = type(ex).__name__; dist['pony_raises'][n] = dist['pony_raises'].get(n, 0) + 1; continue
+            n = type(ex).__name__; dist['pony_raises'][n] = dist['pony_raises'].get(n, 0) + 1
+            if n in ('OperationalError', 'ProgrammingError', 'DatabaseError'):
+                f = form_raises(subs, filt, proj, params, real.graph, ex)
+                seen[f.key] = seen.get(f.key, 0) + 1
+                if seen[f.key] <= max_per_key: failures.append(f)
+            continue
         evals += len(real.graph['G'])
         if not bad: nontriv.add(form_qsrc(subs, filt, proj))
         for g, mode, got, want in bad:
@@ -998,7 +1079,8 @@ def replay_form(d):
     real = J.RealGraph(d['graph'])
     try:
         bad = check_form_query(real, subs, filt, proj, params)
-    except Exception:
+    except Exception as ex:
+        if type(ex).__name__ in ('OperationalError', 'ProgrammingError', 'DatabaseError'): return form_raises(subs, filt, proj, params, d['graph'], ex)
         return None
     if not bad: return None
     g, mode, got, want = bad[0]
